@@ -1307,9 +1307,17 @@ def corpus():
     yield {"op": "kg", "src": spec, "mods": []}
     yield {"op": "kg", "src": spec, "mods": [{"sec": "oral_formants", "sub": "bandwidths", "f": "c55"}]}
     yield {"op": "kg", "src": spec, "mods": [{"sec": "oral_formants", "sub": "formants", "f": "third"}, {"sec": "pitch", "sub": None, "f": "c1e-05"}]}
-    # sign of zero: neg applied to a zero value (known finding C19-negzero)
+    # regression C19-negzero (fixed in /repo bd8eb8f): sign change applied to a zero value, in a tier and in a container
     z = {"xmin": 0, "xmax": 1, "style": "plain", "secs": [{"k": "T", "name": "phonation", "pts": None}, {"k": "T", "name": "pitch", "pts": [[0.5, 0.0]]}]}
     yield {"op": "kg", "src": z, "mods": [{"sec": "pitch", "sub": None, "f": "neg"}]}
+    zc = {"xmin": 0, "xmax": 1, "style": "praat", "secs": [
+        {"k": "T", "name": "phonation", "pts": None}, {"k": "T", "name": "pitch", "pts": [[0.5, 0]]},
+        {"k": "C", "name": "oral_formants", "its": [{"name": "formants", "subs": [[[0.25, 0.0], [0.5, 7]]]}, {"name": "bandwidths", "subs": [[[0.5, 0]]]}]}]}
+    yield {"op": "kg", "src": zc, "mods": [{"sec": "oral_formants", "sub": "formants", "f": "neg"}, {"sec": "oral_formants", "sub": "bandwidths", "f": "neg"}]}
+    yield {"op": "clean", "text": "value = -0.0\n    value = -0e0 \nvalue = -0\nvalue = -.0\nvalue = 0.0\nvalue = -1e-400"}
+    # regression C19-empty2d-long (fixed in /repo 3bc936d): long layout without points, both readers
+    for cls, two in (("PitchTier", True), ("DurationTier", True), ("PointProcess", False)):
+        yield {"op": "potext", "two": two, "text": write_long_po(cls, 0, 1.5, [])}
     # point objects: empty objects in all classes, exponent numerals
     for cls in ("PointProcess", "PitchTier", "DurationTier"):
         yield {"op": "po", "cls": cls, "min": 0, "max": 1.5, "rows": []}
